@@ -89,6 +89,13 @@ def contains(prog, outer, inner, _seen=None):
 def resolve_rec(prog, spec):
     """'ttx_pop_link' or 'ttx_pop_link.default_obj' (the anonymous element
     record of that field) -> record name in the facts."""
+    if spec.startswith("global:"):
+        # the (possibly anonymous) record type of a global variable
+        for g in prog.globals.get(spec[7:], []):
+            r = rec_of_type(prog, g.get("t"))
+            if r:
+                return r
+        return None
     if "." not in spec:
         return spec if spec in prog.records else None
     base, fld = spec.split(".", 1)
